@@ -315,11 +315,20 @@ pub fn queries(g: &Graph, fam: &Family, thorough: bool) -> Vec<Query> {
 	for fl in [0u64, 1_500, 10_000] {
 		limit_variants.push(Box::new(move |q: &mut Query| q.fee_limit = Some(fl)));
 	}
-	for mc in [FINAL_CLTV + 12, FINAL_CLTV + 50, FINAL_CLTV + 92] {
-		limit_variants.push(Box::new(move |q: &mut Query| q.max_cltv = mc));
+	// CLTV budgets just below / at the sums the policy domain can produce (6, 12, 40, 46, 52, 80 ...),
+	// without first hops (the payer's own channel delta counts towards the router's budget but is
+	// not part of the route) and with first hops (delta 0).
+	let fh_for_cltv = fh_public(g, 600_000, 0);
+	for mc in [5u32, 6, 11, 12, 39, 40, 45, 46, 92] {
+		limit_variants.push(Box::new(move |q: &mut Query| q.max_cltv = FINAL_CLTV + mc));
+		let fh = fh_for_cltv.clone();
+		limit_variants.push(Box::new(move |q: &mut Query| {
+			q.max_cltv = FINAL_CLTV + mc;
+			q.first_hops = Some(fh.clone());
+		}));
 		if thorough {
 			limit_variants.push(Box::new(move |q: &mut Query| {
-				q.max_cltv = mc;
+				q.max_cltv = FINAL_CLTV + mc;
 				q.seed = 7
 			}));
 		}
